@@ -4,10 +4,8 @@ RPCs = {1, 2, 3}
 MaxUpdates = 3
 Eager = FALSE
 MaxMult = 2
-Mutant = 1
+Mutant = 4
 INIT Init
 NEXT Next
 INVARIANT I_SelectedInConfig
-INVARIANT I_CommitOnce
-INVARIANT I_Quiescent
 CHECK_DEADLOCK FALSE
